@@ -65,11 +65,13 @@ class NOOP(AgentExecutingComponent) :
 
         self.advance_tasks(tasks, rps.AGENT_EXECUTING, publish=True, push=False)
 
+        to_watch = list()
         for task in tasks:
 
             try:
                 self._prof.prof('task_start', uid=task['uid'])
                 self._handle_task(task)
+                to_watch.append(task)
 
             except Exception as e:
                 self._log.exception("error running Task")
@@ -82,8 +84,9 @@ class NOOP(AgentExecutingComponent) :
 
                 self.advance_tasks(task, rps.FAILED, publish=True, push=False)
 
+        # tasks which failed to start are done with - do not collect them again
         with self._tasks_lock:
-            self._tasks.extend(tasks)
+            self._tasks.extend(to_watch)
 
 
     # --------------------------------------------------------------------------
